@@ -1462,6 +1462,7 @@ EGLPNUM_TYPENAME_QSLIB_INTERFACE int EGLPNUM_TYPENAME_QSchange_senses (
 	char *sense)
 {
 	int rval = 0;
+	int i;
 
 	rval = check_qsdata_pointer (p);
 	CHECKRVALG (rval, CLEANUP);
@@ -1469,6 +1470,16 @@ EGLPNUM_TYPENAME_QSLIB_INTERFACE int EGLPNUM_TYPENAME_QSchange_senses (
 	rval = EGLPNUM_TYPENAME_ILLlib_chgsense (p->lp, num, rowlist, sense);
 	CHECKRVALG (rval, CLEANUP);
 
+	/* only a ranged row can be non-basic at its upper bound: keep a stored
+	 * basis loadable when the row stops being ranged */
+	if (p->basis && p->basis->rstat)
+	{
+		for (i = 0; i < num; i++)
+		{
+			if (sense[i] != 'R' && p->basis->rstat[rowlist[i]] == QS_ROW_BSTAT_UPPER)
+				p->basis->rstat[rowlist[i]] = QS_ROW_BSTAT_LOWER;
+		}
+	}
 	p->factorok = 0;	/* the logical columns changed: the LU factors are stale */
 	free_cache (p);
 
